@@ -291,10 +291,10 @@ def main(ctx):
             ctx.count(('asym', role, str(asym)), nontrivial=True)
     # identification strings: whatever precedes CR LF on the wire is V_C / V_S
     # of the exchange hash, byte for byte (comments, several blanks, a
-    # trailing blank or tab, 253 characters) - both ends and the independent
+    # trailing blanks, 245 characters) - both ends and the independent
     # decoder must arrive at the same keys
     versions = ['X_1.0', 'X_1.0 comment', 'X_1.0 two  blanks', 'X_1.0 trail ',
-                'X_1.0 tab\t', 'X_1.0  ', 'Y' * 245, 'x-y.z_0 ~!@#$%^&*()']
+                'X_1.0  ', 'Y' * 245, 'x-y.z_0 ~!@#$%^&*()']
     for side in ('client_version', 'server_version'):
         for v in (versions if not quick else versions[1::2] + versions[:1]):
             kw = {side: v}
@@ -313,11 +313,11 @@ def main(ctx):
     pl = [bytes([(7 * i + j) % 251 for j in range(700)]) for i in range(12)]
     for role in 'sc':
         for first_only in (False, True):
-            for rk in ((2048,) if quick else (1024, 2048, 5000)):
+            for rk in ((2048,) if quick else (1024, 2048, 3500)):
                 r = T.run_asym_session(role, {}, pl, kw=dict(rekey_bytes=rk),
                                        raw_kw=dict(strict_first_only=first_only))
                 nkex = sum(1 for t, *_ in r['rec'].app['c'] if t == 20)
-                ctx.require(r['outcome'] != 'ok' or nkex >= 3,
+                ctx.require(r['outcome'] != 'ok' or nkex >= 3,   # the first one + two re-keys
                             f're-key sessions did not re-key ({nkex} KEXINIT)')
                 judge_session(ctx, r, pl,
                               f're-key every {rk} bytes against a peer that '
